@@ -141,7 +141,7 @@ VERUS_UNITS = [
     ),
     dict(
         id="verus_compact_calendar",
-        props=["C15", "C04"],
+        props=["C15", "C04", "C01", "C02"],
         template="verus/compact_calendar.verus.rs",
         kani_unit="calendar",
         lemmas=["C15.verus.lemma_set_bit", "C15.verus.lemma_zero_bit", "C15.verus.lemma_insert_then_contains"],
